@@ -22,6 +22,10 @@ impl FromJson for TDate {
 
         // 18013-5 asks for dates to be in RFC3339 format with no milliseconds, and with no UTC
         // offset.
+        // `time` accepts any byte between the date and the time.
+        if !matches!(date_str.as_bytes().get(10), Some(b'T' | b't' | b' ')) {
+            return Err(anyhow!("date not in RFC3339 format").into());
+        }
         Ok(Self(
             OffsetDateTime::parse(&date_str, &Rfc3339)
                 .map_err(|e| anyhow!("date not in RFC3339 format: {}", e))
